@@ -98,6 +98,8 @@ MAYPANIC = {
     "<BytesMut as BufMut>::put_u8": (CAPACITY, "BytesMut grows; panics only on capacity overflow"),
     "Iterator::enumerate": (CAPACITY, "index overflow after usize::MAX items"),
     "<Enumerate<I> as Iterator>::next": (CAPACITY, "index overflow after usize::MAX items"),
+    "<T as ToString>::to_string": (RUNTIME_TOTAL, "the blanket impl panics only if the receiver's Display returns Err: the "
+                                   "receivers are str, integers and BigDecimal, whose Display is infallible (third-party trusted)"),
     "*const T::as_ref": (RUNTIME_TOTAL, "documented panic is during const evaluation only (unsafety handled by pack U)"),
     "Vec<T>::with_capacity": (GUARD, "argument must be bounded (N4)"),
     "Vec<T, A>::with_capacity_in": (GUARD, "argument must be bounded (N4)"),
